@@ -1,7 +1,80 @@
 import Driver.Util
-/- Sub-protocol `C20`: not built yet. -/
+import ZxVerif.Spec.Vtx
+/-
+Sub-protocol `C20`: the VTX player over the recording backend, and the loader's transposition.
+  new <stereo 0|1> <vtx stereo idx> <rate> <player freq> <frame data hex | ->
+        -> ok <spf> <AyMode idx> <frames>     | panic           (player frequency 0)
+  play <buffer length>
+        -> <returned> <ordinal of first sample> <model calls> <spec calls | -> <spec returned | ->
+           calls of this `play` only: `w<addr><val>` per write, `s<count>` per run of next_sample,
+           comma separated, `-` if none. The spec columns are `-` when spf = 0 (the property
+           assumes a positive samples-per-frame).
+  transpose <register-major hex | ->
+        -> <model frame-major hex | -> <spec frame-major hex | - | na>   (na: length not 14·n)
+All numbers hexadecimal.
+-/
 namespace Driver.C20
+open ZxVerif.Vtx
 
-def proto : Driver.Proto := { σ := Unit, init := (), handle := fun s _ => (s, "unimplemented") }
+structure St where
+  player : Option (Player RecState) := none
+  /-- loop iterations offered so far (= output position per channel while the log lasts) -/
+  offered : Nat := 0
+
+def natHex (n : Nat) : String :=
+  if n = 0 then "0" else
+  let rec go (fuel n : Nat) (acc : List Char) : List Char :=
+    match fuel with
+    | 0 => acc
+    | fuel + 1 => if n = 0 then acc else go fuel (n / 16) (hexChar (n % 16) :: acc)
+  String.ofList (go 64 n [])
+
+/-- canonical text of a call list (run-length for samples) -/
+def encodeCalls (cs : List Call) : String :=
+  let rec go : List Call → Nat → List String → List String
+    | [], pending, acc => (if pending = 0 then acc else s!"s{natHex pending}" :: acc).reverse
+    | .sample :: cs, pending, acc => go cs (pending + 1) acc
+    | .write a v :: cs, pending, acc =>
+        let acc := if pending = 0 then acc else s!"s{natHex pending}" :: acc
+        go cs 0 (s!"w{hex8 a}{hex8 v}" :: acc)
+  let toks := go cs 0 []
+  if toks.isEmpty then "-" else ",".intercalate toks
+
+def dataOf (s : String) : List (BitVec 8) := if s = "-" then [] else hexBytes s
+
+def hexOrDash (bs : List (BitVec 8)) : String := if bs.isEmpty then "-" else bytesHex bs
+
+def handle (s : St) : List String → St × String
+  | ["new", st, vs, rate, pf, d] =>
+    let stereo := boolD st
+    match Player.new (dataOf d) (hexNatD pf) (hexNatD rate) stereo ({} : RecState) with
+    | none => ({ player := none }, "panic")
+    | some p =>
+      ({ player := some p, offered := 0 },
+       s!"ok {natHex p.spf} {natHex (modeIndex stereo (hexNatD vs))} {natHex (framesCount p.frameData)}")
+  | ["play", n] =>
+    match s.player with
+    | none => (s, "bad-op")
+    | some p =>
+      let n := hexNatD n
+      let r := play recorder p n
+      let p' := r.1
+      let added := (p'.ay.rev.take (p'.ay.rev.length - p.ay.rev.length)).reverse
+      let u := units p.stereo n
+      let specCols :=
+        if p.spf = 0 then "- -"
+        else
+          let calls := Spec.schedule p.frameData p.spf s.offered u
+          let ret := returned p.stereo (Spec.delivered p.frameData p.spf s.offered u)
+          s!"{encodeCalls calls} {natHex ret}"
+      ({ player := some p', offered := s.offered + u },
+       s!"{natHex (returned p.stereo r.2.length)} {natHex p.ay.samples} {encodeCalls added} {specCols}")
+  | ["transpose", d] =>
+    let t := dataOf d
+    let spec := if t.length % 14 = 0 then hexOrDash (Spec.transposed (t.length / 14) t) else "na"
+    (s, s!"{hexOrDash (transpose t)} {spec}")
+  | _ => (s, "bad-op")
+
+def proto : Driver.Proto := { σ := St, init := {}, handle := handle }
 
 end Driver.C20
